@@ -86,7 +86,7 @@ def main():
                 run.inconclusive.append('"%s": schedule exists in the model (k=%d) but the native %s scenario did not reproduce it in its time budget' % (name, k, scen))
         # conformance of the model with the real build when no counterexample exists: the native scenarios must pass
         if not cex:
-            for scen in (['rebind'] if not run.thorough else ['rebind', 'inflight']):
+            for scen in ['rebind', 'inflight']:
                 try:
                     failed, panicked, out = driver.replay_native('server', 'server', ['c14_native.go'], 'VerifHarness_C14_Native', {'str:scenario': scen}, timeout=900)
                 except Exception as x:  # noqa
